@@ -77,7 +77,9 @@ Definition run_regstream (arg : sx) : sx :=
           L (map (fun rc => SB (reg_matches (nth_reg rs (fst (fst rc))) (match snd rc with Some c => c | None => [] end)))
                  (combine recs chunks));
           L (read_stream fr sto rs recs text 0);
-          L (map (fun r => SB (elem_fits sto rs (ETyped (fst r) (snd r)))) recs) ]
+          L (map (fun r => SB (elem_fits sto rs (ETyped (fst r) (snd r)))) recs);
+          (* the same stream read through the file-level loop with the given peek window *)
+          match R fr true sto (sxnat (sxnth 4 arg)) rs text with Some es => L (map Selem es) | None => OUT_OF_FUEL end ]
   end.
 
 (* REGFILE: (variant sto linesize regdefs mode payload)
